@@ -487,19 +487,6 @@ func c01Main(r *run.Runner) {
 		}
 		return states[w.ID]
 	}
-	total := int64(0)
-	for n := 1; n <= N; n++ {
-		items := shapes.Items(n)
-		total += shapes.Count(n)
-		n := n
-		r.Sweep(fmt.Sprintf("trees-%d", n), int64(len(items)), func(w *run.Worker, item int64) {
-			st := getState(w)
-			shapes.Do(items[item], func(sh gen.Expr) bool {
-				c01Shape(w, st, sh, n, NPos)
-				return !w.Stopped()
-			})
-		})
-	}
 	// parentheses and depth never change whether compilation terminates or whether the output is valid SQL
 	type dn struct{ i, j, depth int }
 	var deeps []dn
@@ -535,6 +522,20 @@ func c01Main(r *run.Runner) {
 		st := getState(w)
 		c01LeafKinds(w, st, shapes, int(item))
 	})
+	// the tree enumeration last (largest): the families above are never starved by the tier deadline
+	total := int64(0)
+	for n := 1; n <= N; n++ {
+		items := shapes.Items(n)
+		total += shapes.Count(n)
+		n := n
+		r.Sweep(fmt.Sprintf("trees-%d", n), int64(len(items)), func(w *run.Worker, item int64) {
+			st := getState(w)
+			shapes.Do(items[item], func(sh gen.Expr) bool {
+				c01Shape(w, st, sh, n, NPos)
+				return !w.Stopped()
+			})
+		})
+	}
 	r.Extra["bounds"] = map[string]any{"internal_nodes": N, "all_positions_up_to_nodes": NPos, "node_kinds": len(kinds), "trees": total,
 		"positions": len(c01Positions), "numeric_domain": fmt.Sprint(domainOf(tNum, r.Thorough())), "string_domain": fmt.Sprint(domStr), "array_domain": fmt.Sprint(domArr)}
 	r.Sample("T | where not ( na ) in ( nb , nc )")
